@@ -352,6 +352,93 @@ impl Sys {
     }
 }
 
+/// Removal through the range clean-up (`cleanup_irrelevant_records`, which only acts on a store of at least 1638
+/// records): a store of 1638 / 1650 settled records stored nearest-first — so the 25 newest, still in the read cache,
+/// are the farthest — a range after rank n-40 / n-10 / n-1, clean-up, settle. Every key beyond the range is a removed
+/// key (not listed, not readable, file gone), every other reads back exactly. Then each of three removed keys is put
+/// again with the *same* bytes: an accepted write that must be listed and readable once settled, also after 26 other
+/// puts have rolled the read cache over.
+fn bulk_cleanup_readback(run: &Run) {
+    const THRESHOLD: usize = 16 * 1024 / 10;
+    let peer = rigs::fixtures::peer_id(1);
+    let all = ranked_keys(peer, THRESHOLD + 12, "c01-bulk");
+    let value = |i: usize| -> Vec<u8> { [&[0x91u8, 1][..], format!("bulk {i}").as_bytes()].concat() };
+    let cases: Vec<(usize, usize)> = vec![(THRESHOLD, 40), (THRESHOLD, 10), (THRESHOLD + 12, 10), (THRESHOLD + 12, 1)];
+    std::thread::scope(|sc| {
+        for (n, beyond) in cases {
+            let all = &all;
+            sc.spawn(move || {
+                let scratch = fresh_scratch("c01-bulk");
+                let mut rig = StoreRig::new(&scratch, RigCfg { max_records: 16 * 1024, cache_size: 25, max_value_bytes: None }, peer);
+                for (i, k) in all.iter().take(n).enumerate() {
+                    rig.put(k, &value(i)).expect("bulk put");
+                }
+                rig.settle();
+                let me = ant_protocol::NetworkAddress::from_peer(peer);
+                let d = |k: &libp2p::kad::RecordKey| crate::c10::distance_u256(&me, k);
+                let gap = n - beyond;
+                let (lo, hi) = (d(&all[gap - 1]), d(&all[gap]));
+                rig.store.verif_set_responsible_distance_range(lo + (hi - lo) / ant_evm::U256::from(2u8));
+                rig.cleanup();
+                rig.settle();
+                let desc = serde_json::json!({"engine": "bulk-clean-up", "records": n, "beyond_the_range": beyond});
+                run.case(desc.to_string().as_bytes(), true);
+                let listed: std::collections::BTreeSet<String> = rig.view().records.iter().map(|(k, _)| hexkey(k)).collect();
+                let files = rig.listing();
+                if listed.len() == n {
+                    run.machinery_error("bulk clean-up removed nothing: the scenario would be vacuous");
+                }
+                for (i, k) in all.iter().take(n).enumerate() {
+                    let got = rig.get(k).map(|r| r.value);
+                    let h = hexkey(k);
+                    if i >= gap {
+                        if listed.contains(&h) {
+                            run.violation("removed-not-listed", "range-clean-up", format!("{n} records, the {beyond} farthest beyond the range: rank {i} is still listed after the clean-up"), desc.clone());
+                        }
+                        if got.is_some() {
+                            run.violation("removed-not-readable", "range-clean-up", format!("{n} records, the {beyond} farthest beyond the range: rank {i} was removed by the clean-up (listed: {}, file: {}) and is still readable", listed.contains(&h), files.contains_key(&h)), desc.clone());
+                        }
+                        if files.contains_key(&h) {
+                            run.violation("removed-file-gone", "range-clean-up", format!("{n} records: the file of rank {i} survives the clean-up that removed it"), desc.clone());
+                        }
+                    } else if got.as_deref() != Some(&value(i)[..]) {
+                        run.violation("settled-write-readable", "range-clean-up", format!("{n} records: rank {i} is within the range and no longer reads back after the clean-up"), desc.clone());
+                    }
+                }
+                // the same bytes again for three of the removed keys (newest, oldest removed, middle): accepted writes
+                let again: Vec<usize> = vec![n - 1, gap, gap + (n - gap) / 2];
+                let mut accepted = vec![];
+                for i in again {
+                    if rig.put(&all[i], &value(i)).is_ok() {
+                        accepted.push(i);
+                    }
+                }
+                rig.settle();
+                for phase in ["settled", "after the read cache rolled over"] {
+                    if phase != "settled" {
+                        for i in 0..26usize {
+                            let _ = rig.put(&all[i], &[&value(i)[..], b" v2"].concat());
+                        }
+                        rig.settle();
+                    }
+                    let listed: std::collections::BTreeSet<String> = rig.view().records.iter().map(|(k, _)| hexkey(k)).collect();
+                    for i in &accepted {
+                        let got = rig.get(&all[*i]).map(|r| r.value);
+                        if !listed.contains(&hexkey(&all[*i])) {
+                            run.violation("settled-write-listed", "put-again-after-range-clean-up", format!("{n} records: rank {i} was removed by the clean-up, put again (answered Ok) and is not listed ({phase})"), desc.clone());
+                        }
+                        if got.as_deref() != Some(&value(*i)[..]) {
+                            run.violation("settled-write-readable", "put-again-after-range-clean-up", format!("{n} records: rank {i} was removed by the clean-up, put again (answered Ok) and does not read back ({phase})"), desc.clone());
+                        }
+                    }
+                }
+                drop(rig);
+                let _ = std::fs::remove_dir_all(&scratch);
+            });
+        }
+    });
+}
+
 pub fn main(tier: Option<&str>) {
     let run = Run::new("C01", "model_checking", tier);
     run.rule(
@@ -360,7 +447,9 @@ pub fn main(tier: Option<&str>) {
          configurations (capacity 2 or 100, cache 1 or 25, from empty and from pre-filled settled stores); at most 3(4) API operations \
          per history, scheduler steps unbounded (every history runs to quiescence); state key = index, distance index, cache, reads, directory \
          listing with content hashes, pending tasks per key, queued notifications, reference expectation. Oracle evaluated after every \
-         transition (safety) and in every quiescent state (liveness).",
+         transition (safety) and in every quiescent state (liveness). Plus removal through the range clean-up: stores of 1638 / 1650 \
+         settled records stored nearest-first (the 25 newest, still cached, are the farthest), a range that leaves the 40 / 10 / 1 farthest outside, clean-up; \
+         every key judged for listed / readable / file, three removed keys put again with the same bytes and judged settled and after a cache roll-over.",
     );
     run.assume("tasks of one key keep their spawn order (the statement quantifies over tasks of different keys)");
     run.assume("keys that saw an I/O failure or a refused (MaxRecords) put are judged by the safety clause only");
@@ -381,6 +470,7 @@ pub fn main(tier: Option<&str>) {
             || Sys::new(cfg.clone(), block, a, &prefill),
         );
     }
+    bulk_cleanup_readback(&run);
     crate::driver_rig::c01_differential(&run);
     crate::driver_rig::c01_flow_differential(&run);
     run.finish();
